@@ -46,6 +46,11 @@ pub struct Sub2 {
     v2: u64,
 }
 
+/// a slot value without fields (a completion marker): its closed form is zero-sized
+#[metrics]
+#[derive(Default)]
+pub struct SlotMarker {}
+
 #[metrics]
 #[derive(Default)]
 pub struct Work {
@@ -55,6 +60,8 @@ pub struct Work {
     s1: Slot<Sub1>,
     #[metrics(flatten)]
     s2: LazySlot<Sub2>,
+    #[metrics(flatten)]
+    s3: Slot<SlotMarker>,
 }
 
 #[derive(Clone, Debug)]
@@ -134,6 +141,7 @@ enum Obj {
     Force(ForceFlushGuard),
     Slot1(SlotGuard<Sub1>),
     Slot2(SlotGuard<Sub2>),
+    Slot3(SlotGuard<SlotMarker>),
 }
 
 struct Table {
@@ -354,7 +362,16 @@ fn uow_main(plan: &Value, log: ULog) {
                         (false, true, _) => "slot_delay",
                         _ => "slot_discard",
                     };
-                    if ju(op, "slot", 1) == 1 {
+                    if ju(op, "slot", 1) == 3 {
+                        // the marker slot: nothing to carry, only the waiting matters
+                        if let Some(mut g) = o.s3.open(m) {
+                            for _ in 0..redelay {
+                                g.delay_flush(o.flush_guard());
+                            }
+                            log.log(UK::Create { obj: id, kind });
+                            table.put(id, Obj::Slot3(g));
+                        }
+                    } else if ju(op, "slot", 1) == 1 {
                         #[allow(deprecated)]
                         let opened = if jb(op, "legacy", false) { drop(m); o.s1.open_slot() } else { o.s1.open(m) };
                         if let Some(mut g) = opened {
@@ -437,7 +454,7 @@ fn uow_main(plan: &Value, log: ULog) {
                 };
                 if let Some(fg) = new_guard {
                     match table.try_take(sid) {
-                        Some(mut sg @ (Obj::Slot1(_) | Obj::Slot2(_))) => {
+                        Some(mut sg @ (Obj::Slot1(_) | Obj::Slot2(_) | Obj::Slot3(_))) => {
                             // the flush guard the slot guard held so far (if any) is dropped inside the call
                             let held = log.snapshot().iter().rev().find_map(|e| match &e.k { UK::Create { obj, kind } if *obj == sid => Some(*kind), _ => None });
                             let was_holding = matches!(held, Some("slot_wait") | Some("slot_delay"));
@@ -449,6 +466,7 @@ fn uow_main(plan: &Value, log: ULog) {
                             match &mut sg {
                                 Obj::Slot1(g) => g.delay_flush(fg),
                                 Obj::Slot2(g) => g.delay_flush(fg),
+                                Obj::Slot3(g) => g.delay_flush(fg),
                                 _ => {}
                             }
                             if was_holding {
@@ -727,6 +745,13 @@ pub fn check_c13(h: &[UEv]) -> Option<Violation> {
     let trig_inv = trigger.and_then(|t| m.drop_inv.get(&t).copied()).unwrap_or(a);
     let force_before = m.kinds.iter().filter(|(_, k)| **k == "force").any(|(o, _)| m.drop_inv.get(o).map(|d| *d < a).unwrap_or(false));
     for (g, kind) in m.kinds.iter().filter(|(_, k)| k.starts_with("slot_")) {
+        if slot_no(h, *g) == 3 {
+            // a marker carries no value: only "the entry waits for the guard" applies
+            if matches!(*kind, "slot_wait" | "slot_delay") && !force_before && !m.forgotten.contains(g) && !m.drop_inv.get(g).map(|i| *i < a).unwrap_or(false) {
+                return Some(Violation::new("entry_did_not_wait_for_slot", format!("marker slot guard {g} was opened in wait mode and no force-flush guard was dropped, but the entry was appended at #{a} before the guard's drop began")));
+            }
+            continue;
+        }
         let present = if slot_no(h, *g) == 1 { v1 } else { v2 };
         let want = m.slot_last.get(g).copied().unwrap_or(0);
         let inv = m.drop_inv.get(g).copied();
@@ -780,7 +805,8 @@ pub fn check_c13(h: &[UEv]) -> Option<Violation> {
 fn slot_no(h: &[UEv], g: u64) -> u64 {
     // slot-1 guards have even ids >= 100, slot-2 guards odd ids >= 100 (generator convention)
     let _ = h;
-    if g % 2 == 0 { 1 } else { 2 }
+    // (marker-slot guards: ids >= 10 000)
+    if (10_000..20_000).contains(&g) { 3 } else if g % 2 == 0 { 1 } else { 2 }
 }
 
 // ------------------------------------------------------------------------------------------
@@ -934,6 +960,19 @@ pub fn gen_uow(rng: &mut Rng, slots: bool) -> Value {
                 droppers[who as usize].push(json!({"op":"sleep","ns": 1_000 * (1 + rng.below(50))}));
             }
             droppers[who as usize].push(op);
+        }
+    }
+    // a quarter of the slot plans also open the marker slot (a value without fields), in wait / delay / discard mode,
+    // somewhere before the owner is released; its guard is dropped by a dropper like everything else
+    let pk = rng.clone().next_u64().rotate_left(17);
+    if slots && pk % 4 == 0 {
+        if let Some(ow_pos) = main_ops.iter().position(|o| matches!(js(o, "op", ""), "release_owner" | "to_handle")) {
+            let id = 10_000 + (pk / 4) % 100;
+            let mode = ["wait", "wait", "delay", "discard"][(pk / 400 % 4) as usize];
+            main_ops.insert((pk / 1600) as usize % (ow_pos + 1), json!({"op":"open_slot","slot":3,"mode":mode,"obj":id}));
+            let op = json!({"op":"drop","obj":id});
+            let who = (pk / 6400) as usize % droppers.len().max(1);
+            if droppers.is_empty() { main_ops.push(op) } else { let at = (pk / 25600) as usize % (droppers[who].len() + 1); droppers[who].insert(at, op) }
         }
     }
     // A third of the plans with a slot guard: delay_flush is called on it late - after the owner has been released, or
